@@ -29,7 +29,10 @@ class Spec(object):
         self.py_of = {}       # spec id -> python object (objects whose pk is not known yet)
         self.keep = []        # keeps the python objects of by_py alive (ids must not be reused)
         self.stopped = None   # reason why checking stopped
+        self.db_error = False # an operation of this session failed inside the database layer (flush / load): the transaction may hold garbage
+        self.tainted = set()  # (owner, attribute) of collections from which this session removed items with cascade delete
         self.violations = []  # (check, detail)
+        self.db_error_at_commit = False
 
     # ---- helpers
     @staticmethod
@@ -39,6 +42,7 @@ class Spec(object):
 
     def new_session(self):
         self.by_py, self.py_of, self.keep = {}, {}, []
+        self.db_error = False; self.tainted = set()
 
     def sid(self, obj, ent):
         k = self.by_py.get(id(obj))
@@ -138,7 +142,7 @@ class Spec(object):
         if self.kind(e, a) == 'm2m': return self.m2m_change(x, a, items, False)
         for b in sorted(items):
             if b in self.cur and self.cur[b]['vals'].get(at['rev']) == x:
-                if self.cascade(e, a): self.delete(b)
+                if self.cascade(e, a): self.delete(b); self.tainted.add((x, a))
                 else: self.cur[b]['vals'][at['rev']] = None
 
     def link(self, x, a, items):
@@ -155,6 +159,8 @@ class Spec(object):
     def stop(self, why): self.stopped = why
 
     def bad(self, check, detail):
+        # qualifier: the same symptom has different root causes in a session whose transaction was damaged by a failed flush / load
+        if self.db_error: check += '-after-db-error'
         self.violations.append((check, detail))
         self.stopped = check
 
@@ -184,6 +190,7 @@ class Spec(object):
         k = op[0]
         ok = res[0] != 'err'
         if k in ('commit', 'newsession', 'rollback'):
+            self.db_error_at_commit = self.db_error       # for the dump check that follows
             if k != 'rollback' and ok:
                 self.learn_pks()
                 self.committed = self.clone(self.cur)
@@ -195,9 +202,21 @@ class Spec(object):
             # the session was rolled back underneath the program (not by commit / rollback / leaving the db_session)
             self.cur = self.clone(self.committed); self.new_session()
             return
+        if not ok and res[1] in ('TxnIntegrity', 'Integrity', 'Cyclic', 'Optimistic', 'Unrepeatable', 'KeyError', 'Assertion', 'Other'):
+            was, self.db_error = self.db_error, True
+            if k in ('read', 'count', 'isempty', 'contains') and res[1] == 'Assertion' and not self.stopped:
+                self.db_error = was          # the assertion itself is judged with the state before it
+                self.step_checked(op, res, rn)
+                self.db_error = True
+            return
         if self.stopped: return
         self.learn_pks()
         if k == 'flush': return
+        self.step_checked(op, res, rn)
+
+    def step_checked(self, op, res, rn):
+        k = op[0]
+        ok = res[0] != 'err'
         def objs_of(v):
             if v is None or not isinstance(v, dict): return v
             hs = [v['h']] if 'h' in v else v['hs']
@@ -290,7 +309,7 @@ class Spec(object):
                 return
             mem = self.members(x, a)
             if k == 'count' and res[1] != len(mem):
-                self.bad('c10-count', '%s.a%d has %d members %s, count() returned %r' % (self.show(x), a, len(mem), self.shows(mem), res[1]))
+                self.bad('c10-count-after-cascade-remove' if (x, a) in self.tainted else 'c10-count', '%s.a%d has %d members %s, count() returned %r' % (self.show(x), a, len(mem), self.shows(mem), res[1]))
             if k == 'isempty' and res[1] != (len(mem) == 0):
                 self.bad('c10-isempty', '%s.a%d has %d members, is_empty() returned %r' % (self.show(x), a, len(mem), res[1]))
             if k == 'contains':
@@ -341,12 +360,13 @@ class Spec(object):
             return
         if isinstance(y, bool) or (at['k'] == 'int' and y is not None and not isinstance(y, int)) or (at['k'] == 'str' and not isinstance(y, str)): return
         want = set(x for x in live() if self.cur[x]['vals'].get(a) == y)
+        unsaved = at['k'] == 'ref' and y is not None and self.cur[y]['pk'] is None      # the criterion is an object without a primary key yet
         if k == 'select':
-            if ok: self.cmp_objs('c10-select', res, want, rn, e)
+            if ok: self.cmp_objs('c10-select-by-unsaved-object' if unsaved else 'c10-select', res, want, rn, e)
             return
         if ok:
             if res[0] == 'none':
-                if want: self.bad('c10-getby', 'E%d.get(a%d=%r) returned None, the session has %s' % (e, a, v, self.shows(want)))
+                if want: self.bad('c10-getby-by-unsaved-object' if unsaved else 'c10-getby', 'E%d.get(a%d=%r) returned None, the session has %s' % (e, a, v, self.shows(want)))
             else:
                 got = self.sid(rn.handles[res[1]], e)
                 if got not in want or len(want) != 1:
@@ -435,5 +455,6 @@ class Spec(object):
         return self.bad_dump('c09-committed-value-differs', 'expected %r, got %r' % (want, d))
 
     def bad_dump(self, check, detail):
+        if self.db_error_at_commit: check += '-after-db-error'
         self.stopped = check
         return (check, detail)
